@@ -521,7 +521,7 @@ func VerifC32_SkipCopied() {
 	dstID[0], dstID[1] = 0xd1, 0x32
 	data.TestSetSnapshotID(nil, dst, dstID)
 	// the JSON round trip normalises times to the same instant; paths/tags may be reordered by later `tag` runs
-	mut := verifC32Pick("mutation", 0, 6)
+	mut := verifC32Pick("mutation", 0, 7)
 	switch mut {
 	case 1:
 		other := verifC32TreeID(5)
@@ -537,6 +537,10 @@ func VerifC32_SkipCopied() {
 	case 6:
 		dst.Paths = []string{"/b", "/a"} // same set, other order: still the same snapshot
 		dst.Tags = []string{"y", "x"}
+	case 7:
+		// decoded from JSON with a UTC offset that is not the local zone: the same instant, but each
+		// decoded time carries its own *time.Location
+		dst.Time = dst.Time.In(time.FixedZone("", 5*3600+45*60))
 	}
 
 	// destination map as built by runCopy
@@ -557,7 +561,7 @@ func VerifC32_SkipCopied() {
 		verifrt.Assert(err == nil && sn == src2, "unexpected item selected")
 		n++
 	}
-	if mut == 0 || mut == 6 {
+	if mut == 0 || mut == 6 || mut == 7 {
 		verifrt.Reach("second-run")
 		verifrt.Assert(n == 0, "a snapshot that was already copied is selected again (copy is not idempotent)")
 	} else {
